@@ -199,6 +199,11 @@ fn run_prefix(c: &Case, p: usize, steps: &[usize], s: &mut Sched, st: &mut Stats
     let req_head = crate::drive::redirect::write_head_until_ready(&mut sr, &mut out).map_err(|e| format!("head write: {:?}", e))?;
     let mut a = match sr.proceed().map_err(|e| format!("{:?}", e))?.ok_or("head incomplete")? {
         SendRequestResult::Await100(a) => a,
+        // a body of zero bytes: whether it is "due" - and with it the handshake - is not stated
+        SendRequestResult::RecvResponse(_) if probe.req_framing == ReqFraming::Cl && probe.body.is_empty() => {
+            st.class("zero_length_body_with_expect_has_no_body_state");
+            return Ok(());
+        }
         _ => return Err(what("Expect: 100-continue with a body due did not enter Await100".into())),
     };
     let mut consumed = 0usize;
@@ -287,7 +292,10 @@ fn run_prefix(c: &Case, p: usize, steps: &[usize], s: &mut Sched, st: &mut Stats
     let (obs, _term) = match outcome {
         Outcome::Done(o, t) => (o, t),
         Outcome::Premature(_) => return Err("harness: premature".into()),
-        Outcome::FollowedWithoutInheritedExpect => return Err("harness: outcome of a followed flow on a fresh one".into()),
+        Outcome::NotCompared(why) => {
+            st.class(why);
+            return Ok(());
+        }
     };
     check_against_truth(&spec, &obs, true, stream.len()).map_err(|e| what(e))?;
     if refused {
